@@ -79,9 +79,32 @@ def parse_proof(table, sx, known=None):
 def run_case(args):
     idx, seed, binary = args
     rng = random.Random(f"c10-{seed}-{idx}")
-    logic = LOGICS[idx % len(LOGICS)]
+    logic = LOGICS[idx % len(LOGICS)] if not isinstance(idx, str) else "corpus"
     opts = [":print-success true", ":produce-proofs true"]
-    if idx % 3 == 2:
+    if isinstance(idx, str):
+        script = open(idx).read()
+    elif idx % 5 == 4:
+        # refutations found while clauses are added (complementary units, at several levels, after popped refutations)
+        p = gen.Problem("QF_BOOL" if idx % 2 else logic, rng)
+        lines = [f"(set-option {o})" for o in opts] + [p.set_logic()] + p.decls
+        depth = 0
+        for _ in range(rng.randint(6, 14)):
+            c = rng.random()
+            if c < 0.2 and depth < 3:
+                lines.append("(push 1)"); depth += 1
+            elif c < 0.35 and depth:
+                lines.append("(pop 1)"); depth -= 1
+            elif c < 0.75:
+                b = rng.choice(p.bools)
+                f = b if rng.random() < 0.5 else ("app", "not", "Bool", [b])
+                if rng.random() < 0.3:
+                    f = p.fla(1)
+                lines.append(f"(assert {gen.smt(f)})")
+            else:
+                lines += ["(check-sat)", "(get-proof)"]
+        lines += ["(check-sat)", "(get-proof)"]
+        script = "\n".join(lines) + "\n"
+    elif idx % 3 == 2:
         p, script, checks = gen.clausal_history(logic, rng, options=opts, after_check=lambda p, r: ["(get-proof)"])
     else:
         p, script, checks = gen.history(logic, rng, options=opts, after_check=lambda p, r: ["(get-proof)"])
@@ -199,7 +222,8 @@ def run(tier):
     binary = common.opensmt_bin("hooks")
     n = 150 if tier == "quick" else 3000
     with mp.Pool(min(common.JOBS, 14)) as pool:
-        results = pool.map(run_case, [(i, chk.seed, binary) for i in range(n)], chunksize=2)
+        corpus = sorted(str(f) for f in (common.VERIF / "corpus" / "C10").glob("*.smt2"))
+        results = pool.map(run_case, [(i, chk.seed, binary) for i in corpus + list(range(n))], chunksize=2)
     proofs = steps = leaves = 0
     for r in results:
         proofs += r["proofs"]; steps += r["steps"]; leaves += r["leaves"]
